@@ -461,6 +461,65 @@ theorem mem_cList {L : Nat} {dirs : List Path} {c : CD} {t : FileType} {id : Nam
     rw [List.mem_filterMap]
     exact ⟨(cpath t id, some d), mem_of_lget hl, cLinkEntry_cpath t hn d hp hd hl⟩
 
+theorem fget_isSome_of_mem {fs : FS} {p : Path} {b : Bytes} (h : (p, b) ∈ fs) : (fget fs p).isSome = true := by
+  induction fs with
+  | nil => cases h
+  | cons e rest ih =>
+    obtain ⟨q, b'⟩ := e
+    unfold fget
+    by_cases hq : q = p
+    · simp [hq]
+    · simp only [hq, if_false]
+      rcases List.mem_cons.1 h with h' | h'
+      · cases h'; exact absurd rfl hq
+      · exact ih h'
+
+/-- converse of `mem_cList`: every listed entry has an id-shaped name and is something a read can serve -/
+theorem cList_hit {L : Nat} {dirs : List Path} {c : CD} {t : FileType} {e : Name × Nat} (h : e ∈ cList L dirs c t) :
+    isCacheName L e.1 = true ∧ (cHit dirs c t e.1).isSome = true := by
+  unfold cList at h
+  rw [List.mem_append] at h
+  rcases h with h | h
+  · rw [List.mem_filterMap] at h
+    obtain ⟨⟨p, b⟩, hm, he⟩ := h
+    unfold cEntry at he
+    split at he
+    · next d sub n hp =>
+      simp only at hp
+      subst hp
+      split at he
+      · next hc =>
+        obtain ⟨h1, h2, h3, h4, h5, h6⟩ := hc
+        cases he
+        subst h1; subst h3
+        refine ⟨h2, ?_⟩
+        have hd : hasDir dirs (cpath t n) = false := h4
+        have hk : lget c.links (cpath t n) = none := by
+          have : hasLink c (cpath t n) = false := h5
+          simpa [hasLink] using this
+        simp only [cHit, h6, hd, Option.isSome_none, Bool.or_self, Bool.false_eq_true, if_false, entryBytes, hk]
+        exact fget_isSome_of_mem hm
+      · cases he
+    · cases he
+  · rw [List.mem_filterMap] at h
+    obtain ⟨⟨p, v⟩, _, he⟩ := h
+    unfold cLinkEntry at he
+    split at he
+    · next d sub n b hp hv =>
+      simp only at hp hv
+      subst hp; subst hv
+      split at he
+      · next hc =>
+        obtain ⟨h1, h2, h3, h4, h5, h6⟩ := hc
+        cases he
+        subst h1; subst h3
+        refine ⟨h2, ?_⟩
+        have hd : hasDir dirs (cpath t n) = false := h4
+        have hk : lget c.links (cpath t n) = some (some b) := h5
+        simp [cHit, h6, hd, entryBytes, hk]
+      · cases he
+    · cases he
+
 /-- What survives a clean-up has the size the listing reports for that id. -/
 theorem removeNotInList_survivor {L : Nat} {dirs : List Path} {c : CD} {t : FileType} {list : List (Name × Nat)} {id : Name}
     {d : Bytes} (hn : isCacheName L id = true) (h : cHit dirs (removeNotInList L dirs c t list) t id = some d) :
